@@ -203,11 +203,21 @@ def run_history(case, ctx):
     elif op in ('copy', 'corecopy'):
       fd, s = m.frozen[i % len(m.frozen)]
       add = build(spec)
-      if j % 3 == 0:
+      if j % 6 == 0:
         add_arg = FrozenDict(add)
       else:
-        add_arg = add
+        # any Mapping is accepted: plain dict, read-only proxy, ChainMap,
+        # UserDict -- all views of `add`, which the caller may mutate later
+        import collections as _c
+        import types as _t
+        add_arg = [add, _t.MappingProxyType(add), _c.ChainMap(add),
+                   _c.UserDict(add), _c.OrderedDict(add)][j % 5]
+        if j % 5 == 3:
+          m.sources.append(add_arg.data)
+        elif j % 5 == 4:
+          m.sources.append(add_arg)
         m.sources.append(add)
+        labels.add('copy-' + type(add_arg).__name__)
       s2 = s
       for kk, vv in add.items():
         s2 = snap_set(s2, kk, snap(vv))
